@@ -54,10 +54,46 @@ class FlowStub:
         self.calls.append(FlowCall(dfunc, x0, times, args, out, '_my_odeint_'))
         return out
 
-    class _ode:
-        def __init__(self, *a, **k):
-            raise symx.Unencodable('scipy.integrate.ode used directly')
-    ode = _ode
+    def ode(self, f, jac=None):
+        """scipy.integrate.ode(f): f(t, y).  The emulation records where the integration is started (set_initial_value) and hands
+        out one fresh symbolic state per integrate(t) call -- an arbitrary point of the flow, like odeint's rows."""
+        flow = self
+
+        class _Ode:
+            def __init__(self):
+                self.call = None
+                self.t = None
+                self.y = None
+
+            def set_integrator(self, *a, **k):
+                return self
+
+            def set_f_params(self, *a):
+                raise symx.Unencodable('scipy.integrate.ode.set_f_params')
+
+            def set_initial_value(self, y, t=0.0):
+                x0 = np.array(list(np.asarray(y, dtype=object).reshape(-1)), dtype=object)
+                self.call = FlowCall(lambda X, tt: f(tt, X), x0, [t], (), [x0], 'integrate.ode')
+                flow.calls.append(self.call)
+                self.t, self.y = t, x0
+                return self
+
+            def integrate(self, t, step=False, relax=False):
+                if self.call is None:
+                    raise symx.Unencodable('integrate.ode.integrate before set_initial_value')
+                flow.counter += 1
+                i = len(self.call.times)
+                row = np.empty(len(self.call.X0), dtype=object)
+                for j in range(len(row)):
+                    row[j] = Sym(z3.Real('x%d_%d_%d' % (flow.counter, i, j)))
+                self.call.times.append(t)
+                self.call.out.append(row)
+                self.t, self.y = t, row
+                return row
+
+            def successful(self):
+                return True
+        return _Ode()
 
 
 class NPX:
@@ -77,6 +113,23 @@ class NPX:
         z = np.empty(shape, dtype=object)
         z.fill(1)
         return z
+
+    def empty(self, shape, *a, **k):
+        return self.zeros(shape)
+
+    def full(self, shape, fill_value, *a, **k):
+        z = np.empty(shape, dtype=object)
+        z.fill(fill_value)
+        return z
+
+    def zeros_like(self, x, *a, **k):
+        return self.zeros(np.shape(x))
+
+    def ones_like(self, x, *a, **k):
+        return self.ones(np.shape(x))
+
+    def empty_like(self, x, *a, **k):
+        return self.zeros(np.shape(x))
 
     def array(self, x, *a, **k):
         k.pop('dtype', None)
@@ -120,7 +173,7 @@ def install(an, flow):
     if not _ORIG:
         _ORIG.update(integrate=an.integrate, np=an.np, shift=an.shift, my=an._my_odeint_)
     an.integrate = flow
-    an._my_odeint_ = flow.my_odeint
+    # (_my_odeint_ itself is executed: it drives the integrate.ode emulation above)
     an.np = NPX()
     an.shift = exact_shift
     an.float = symx.sym_float
